@@ -54,6 +54,7 @@ type Stats struct {
 	AssertSat     int
 	FeasQueries   int
 	OverflowWraps int
+	FreshSplits   int
 	MaxPathInstrs int64
 	MaxTrail      int
 	KnownSeen     map[string]int
@@ -149,6 +150,8 @@ type Engine struct {
 	timeLocs  map[string]*Value
 	pathCover map[string]bool
 	onceDone  map[*Value]bool
+	decided   map[*Term]bool
+	usedVars  map[string]bool
 	noNumStr  bool
 	ptrIDs    map[*Value]uint64
 	initSet   map[*ssa.Package]bool
@@ -281,7 +284,43 @@ func (e *Engine) branch(c Value) bool {
 }
 
 func (e *Engine) decideBranch(c *Term) bool {
+	// a condition already decided on this path needs neither solver nor decision
+	if v, ok := e.decided[c]; ok {
+		return v
+	}
+	r := e.decideBranch1(c)
+	e.decided[c] = r
+	e.decided[e.ts.Not(c)] = !r
+	return r
+}
+
+func (e *Engine) noteVars(t *Term) {
+	for name := range t.vars {
+		e.usedVars[name] = true
+	}
+}
+
+// freshBool reports whether c is (the negation of) a Boolean variable that no
+// assertion on this path mentions: both outcomes are then feasible.
+func (e *Engine) freshBool(c *Term) bool {
+	if len(c.vars) != 1 || c.Sort.K != SBool {
+		return false
+	}
+	for name, v := range c.vars {
+		if e.usedVars[name] {
+			return false
+		}
+		if c != v && c != e.ts.Not(v) {
+			return false
+		}
+	}
+	return true
+}
+
+func (e *Engine) decideBranch1(c *Term) bool {
 	alts := [2]*Term{c, e.ts.Not(c)}
+	fresh := e.freshBool(c)
+	e.noteVars(c)
 	switch e.mode() {
 	case modeOwn, modeForeign:
 		d := e.trail[e.di]
@@ -313,14 +352,21 @@ func (e *Engine) decideBranch(c *Term) bool {
 	}
 	// new decision: probe both sides now, so that an infeasible sibling never
 	// costs a re-execution
-	e.stats.FeasQueries += 2
-	e.solver.Push()
-	e.solver.Assert(alts[0])
-	r1 := e.check("feas")
-	e.solver.Pop(1)
-	e.solver.Push()
-	e.solver.Assert(alts[1])
-	r2 := e.check("feas")
+	var r1, r2 SatResult
+	if fresh {
+		r1, r2 = Sat, Sat
+		e.stats.FreshSplits++
+		e.solver.Push()
+	} else {
+		e.stats.FeasQueries += 2
+		e.solver.Push()
+		e.solver.Assert(alts[0])
+		r1 = e.check("feas")
+		e.solver.Pop(1)
+		e.solver.Push()
+		e.solver.Assert(alts[1])
+		r2 = e.check("feas")
+	}
 	if r1 != Unsat {
 		e.solver.Pop(1)
 		d := &decision{kind: "branch", n: 2, cur: 0}
@@ -391,6 +437,7 @@ func (e *Engine) concretizeTerm(t *Term, what string) *big.Int {
 		}
 		return e.ts.IntBig(v)
 	}
+	e.noteVars(t)
 	m := e.mode()
 	if m == modeOwn || (m == modeForeign && e.trail[e.di].forced) {
 		d := e.trail[e.di]
@@ -493,6 +540,7 @@ func (e *Engine) concretizeIndex(v Value) int64 { return e.concretizeInt(v, "ind
 // ---- assumptions, assertions
 
 func (e *Engine) assumeTerm(t *Term) {
+	e.noteVars(t)
 	if !e.live {
 		return
 	}
@@ -512,6 +560,7 @@ func (e *Engine) assume(c Value) {
 			e.infeasiblePath("assume false")
 		}
 	case *Term:
+		e.noteVars(c)
 		if !e.live {
 			return
 		}
@@ -531,6 +580,9 @@ func (e *Engine) infeasiblePath(why string) {
 // assertCond checks cond on the current path. knownID/region implement
 // known findings (see DESIGN §2.12).
 func (e *Engine) assertCond(cond Value, label string, knownID string, region Value) {
+	if ct, ok := cond.(*Term); ok {
+		e.noteVars(ct)
+	}
 	if !e.live {
 		return
 	}
@@ -755,6 +807,8 @@ func (e *Engine) resetPath() {
 	e.timeLocs = map[string]*Value{}
 	e.pathCover = map[string]bool{}
 	e.onceDone = map[*Value]bool{}
+	e.decided = map[*Term]bool{}
+	e.usedVars = map[string]bool{}
 	e.ptrIDs = map[*Value]uint64{}
 	e.stepCtr = 0
 	e.di = 0
@@ -867,7 +921,7 @@ func (e *Engine) ExploreTask(t *task) {
 	if e.start.IsZero() {
 		e.start = time.Now()
 	}
-	e.solver.PopTo(0)
+	e.solver.Reset()
 	e.trail = t.prefix
 	e.foreignLen = len(t.prefix)
 	e.assertFrom = len(t.prefix)
